@@ -94,13 +94,13 @@ fn edges_check<const E: usize>(via_array: bool) {
     kani::cover!(E < 2 || (n >= 2 && v == edges[n - 1]), "W: probe on the last edge");
 }
 
-//@ prop=C13,C16 tier=quick mem=2 timeout=900 inst="Edges<u8>::from(Vec) of 4 values; Bins<u8>" bounds="4 symbolic u8 inputs (all weak-order patterns), any probe; unwind 8"
+//@ prop=C13,C16:thorough tier=quick mem=2 timeout=900 inst="Edges<u8>::from(Vec) of 4 values; Bins<u8>" bounds="4 symbolic u8 inputs (all weak-order patterns), any probe; unwind 8"
 #[kani::proof]
 #[kani::unwind(8)]
 fn c13_edges_vec_e4() {
     edges_check::<4>(false);
 }
-//@ prop=C13,C16 tier=quick mem=2 timeout=900 inst="Edges<u8>::from(Vec) of 3 values" bounds="3 symbolic inputs; unwind 8"
+//@ prop=C13,C16:thorough tier=quick mem=2 timeout=900 inst="Edges<u8>::from(Vec) of 3 values" bounds="3 symbolic inputs; unwind 8"
 #[kani::proof]
 #[kani::unwind(8)]
 fn c13_edges_vec_e3() {
@@ -182,7 +182,7 @@ fn grid_check<const E0: usize, const E1: usize>() {
     kani::cover!(i0.is_some() && i1.is_none(), "W: second coordinate outside");
 }
 
-//@ prop=C13,C16 tier=quick mem=4 timeout=1800 inst="Grid<u8> with 2 axes (3 and 2 symbolic edges)" bounds="axes of 0..=2 and 0..=1 bins, any point; unwind 8"
+//@ prop=C13,C16:thorough tier=quick mem=4 timeout=1800 inst="Grid<u8> with 2 axes (3 and 2 symbolic edges)" bounds="axes of 0..=2 and 0..=1 bins, any point; unwind 8"
 #[kani::proof]
 #[kani::unwind(8)]
 fn c13_grid_e3_e2() {
